@@ -12,6 +12,10 @@
 (* "bad" credentials, accepts "scoped" credentials on route r1 only, and    *)
 (* rejects "revoked" credentials - credentials it accepted earlier on the   *)
 (* same connection and that have been revoked since.                        *)
+(* The verifier is any callable that returns an awaitable - an async        *)
+(* function, an object with an async __call__, a pass-through decorator, a  *)
+(* functools.partial: the decision does not depend on its shape (the replay *)
+(* drives every table with several shapes).                                 *)
 (* TLC enumerates the whole product, checks the gate invariant and prints  *)
 (* the decision table; vf/props/c19.py replays every row on a real         *)
 (* RequestRouter + RoutingRequestHandler - in random order on ONE handler  *)
